@@ -15,8 +15,8 @@ open MakoModel.Target MakoModel.Codegen
 
 /-- **Every render callable** the generator emits – `render_body` or a def/block with any combination of
     buffered / filtered / cached / decorated flags, at any nesting – ends, on every exit path (normal, `return`,
-    exception at any evaluation point), with the buffer stack, the caller stack and the loop stack it started
-    with, and `nextcaller` as before or `None`. -/
+    exception at any evaluation point), with the buffer stack, the caller stack, the loop stack and the pending
+    `nextcaller` it started with. -/
 theorem balanced_codegen (ts : List (Tmpl × Option Bool)) (k : Nat) (top : Bool) (fl : DefFlags) (t : Tmpl)
     (fuel : Nat) (l : Loc) (σ : St) (hl : LocOK l) (hσ : StOK σ) (hne : σ.bufs ≠ [])
     (o : Outcome) (l' : Loc) (σ' : St)
@@ -113,20 +113,20 @@ example : ∃ o l' σ', exec (progOf [] 0) 60
 /-! ## `caller` and `loop` -/
 
 /-- After an exception inside any construct (in particular: when the handler of a `% try` starts) `caller` and
-    `loop` denote what they denoted before the construct: the caller stack and the loop stack are the same, and
-    the activation's lexical `caller` was never touched.  Hence `loop.index` and the namespace `caller.x()`
+    `loop` denote what they denoted before the construct: the caller stack, the loop stack and the pending `nextcaller` are the same,
+    and the activation's lexical `caller` was never touched.  Hence `loop.index` and the namespace `caller.x()`
     resolves to are as before. -/
 theorem caller_and_loop_restored (ts : List (Tmpl × Option Bool)) (k : Nat) (sc : Scope) (t : Tmpl)
     (fuel : Nat) (l : Loc) (σ : St) (hl : LocOK l) (hσ : StOK σ) (i : Nat) (topc : Str) (rest : List (Nat × Str))
     (hb : σ.bufs = (i, topc) :: rest) (hw : l.writer = i) (e : Nat) (l' : Loc) (σ' : St)
     (he : exec (progOf ts k) fuel (stmts sc t) l σ = (.exc e, l', σ')) :
-    σ'.frames = σ.frames ∧ σ'.loops = σ.loops ∧ l'.lexc = l.lexc ∧ l'.useLex = l.useLex ∧
+    σ'.frames = σ.frames ∧ σ'.loops = σ.loops ∧ σ'.next = σ.next ∧ l'.lexc = l.lexc ∧ l'.useLex = l.useLex ∧
       (if l'.useLex then some l'.lexc else σ'.frames.head?) = (if l.useLex then some l.lexc else σ.frames.head?) ∧
       ∀ m, (eval (progOf ts k) m .loopIndex l' σ').1 = (eval (progOf ts k) m .loopIndex l σ).1 := by
   have g := (all_good _ (codegen_cfg_ok ts k) fuel).exec _ l σ i topc rest ((emits t).stmts sc) hl hσ hb hw _ l' σ' he
     (by simp)
   have kp := (exec_keeps_lex (progOf ts k) fuel).1 _ l σ _ l' σ' he
-  refine ⟨g.1.frames, g.1.loops, kp.1, kp.2.1, by rw [kp.1, kp.2.1, g.1.frames], ?_⟩
+  refine ⟨g.1.frames, g.1.loops, g.1.next, kp.1, kp.2.1, by rw [kp.1, kp.2.1, g.1.frames], ?_⟩
   intro m
   cases m with
   | zero => simp [eval]
@@ -221,8 +221,7 @@ theorem rerender_same (ts : List (Tmpl × Option Bool)) (k : Nat) (o : Opts) (fu
       have b := (all_good _ (codegen_cfg_ok ts k) fuel).invoke ⟨m.body, [], 0⟩ [] (Loc.init 0) St.init 0 [] []
         ((codegen_cfg_ok ts k).body m hm') NSOK_nil (loc_init_ok 0) init_ok rfl r1 σ1 h1 hr1
       obtain ⟨w, hw⟩ := b.bufs
-      refine ⟨⟨w, by simpa using hw⟩, b.frames, ?_, b.loops⟩
-      rcases b.next with h | h <;> exact h
+      exact ⟨⟨w, by simpa using hw⟩, b.frames, b.next, b.loops⟩
   simp only [execTemplate] at he
   split at he
   · generalize hx : runBody (progOf ts k) fuel St.init = x at he
